@@ -28,7 +28,7 @@ BlankMsg == [alive |-> FALSE, seen |-> FALSE, s |-> 0, rc |-> <<>>, prepped |-> 
              lostnote |-> FALSE, chgone |-> <<FALSE, FALSE>>, bgone |-> TRUE, isbounce |-> FALSE, form |-> "", base |-> 0, todo |-> FALSE]
 InitMon == [msgs |-> [n \in 1..NMAX |-> BlankMsg], fl |-> {}, conc |-> <<0, 0>>, ann |-> <<0, 0>>, crashed |-> FALSE, lossy |-> FALSE,
             now |-> 0, term |-> FALSE, alrm |-> 0, dead |-> <<FALSE, FALSE>>, life |-> 604800, up |-> FALSE, lastcrash |-> 0,
-            eidx |-> 0, didx |-> 0, dbto |-> 0, seq |-> 0, faulted |-> FALSE]
+            eidx |-> 0, didx |-> 0, dbto |-> 0, seq |-> 0, faulted |-> FALSE, starts |-> 0]
 
 MinI(a, b) == IF a < b THEN a ELSE b
 Limit(st, c) == MinI(st.conc[c + 1], st.ann[c + 1])
@@ -59,7 +59,7 @@ Step(st0, e, strict) ==
   IN
   CASE e.op = "start" ->
          R([st EXCEPT !.conc = <<e.conc[1], e.conc[2]>>, !.ann = <<e.announce[1], e.announce[2]>>, !.fl = {}, !.term = FALSE,
-                      !.dead = <<FALSE, FALSE>>, !.up = TRUE, !.eidx = e.s, !.didx = e.d, !.dbto = e.a, !.life = e.pos], "")
+                      !.dead = <<FALSE, FALSE>>, !.up = TRUE, !.starts = st.starts + 1, !.eidx = e.s, !.didx = e.d, !.dbto = e.a, !.life = e.pos], "")
     [] e.op = "accept" ->
          IF n \notin 1..NMAX THEN R(st, "")
          ELSE IF m.alive THEN R(st, "C02:MessageNumberSharedByTwoMessages")
@@ -88,6 +88,16 @@ Step(st0, e, strict) ==
                     ELSE IF Cardinality(InFlightOn(st, c)) >= Limit(st, c) THEN R(st, "C04:ConcurrencyLimitExceeded")
                     ELSE IF \E g \in st.fl : g[1] = c /\ g[2] = e.d THEN R(st, "C04:DeliveryNumberInUse")
                     ELSE IF st.term THEN R(st, "C03:DeliveryStartedAfterTerm")
+                    ELSE IF strict /\ ~st.faulted /\ st.starts <= 1 /\      \* (after a restart the order follows the saved times, see the C15 known finding)
+                            (LET dueOf(k, j) == LET q == st.msgs[k].recs[j] IN
+                                                  IF q.att = 0 THEN st.msgs[k].birth ELSE IF q.alrmed \/ st.lastcrash > q.satt THEN 0 ELSE Backoff(st.msgs[k].birth, q.tatt, q.c)
+                                 mine == dueOf(n, i)
+                             IN \E k \in 1..NMAX : k # n /\ st.msgs[k].alive /\ st.msgs[k].prepped /\ ~(\E f2 \in st.fl : f2[3] = k /\ st.msgs[k].recs[f2[4]].c = c) /\
+                                   \E j \in 1..Len(st.msgs[k].recs) : LET q == st.msgs[k].recs[j] IN
+                                        q.c = c /\ ~q.mark /\ ~q.fl /\ q.free /\ dueOf(k, j) < mine /\ dueOf(k, j) + 1 < e.t
+                                        /\ ~(\E f3 \in st.fl : f3[3] = n /\ st.msgs[n].recs[f3[4]].c = c)          \* this delcmd opens a new pass of message n
+                                        /\ \A j2 \in 1..Len(st.msgs[n].recs) : st.msgs[n].recs[j2].c = c => (st.msgs[n].recs[j2].mark \/ st.msgs[n].recs[j2].satt < rec.satt \/ j2 = i \/ st.msgs[n].recs[j2].att = 0))
+                         THEN R(st, "C15:LaterDueMessageServedBeforeEarlierDue")
                     ELSE IF strict /\ rec.att > 0 /\ ~rec.alrmed /\ st.lastcrash <= rec.satt /\ rec.free /\ e.t < Backoff(m.birth, rec.tatt, c)
                          THEN R(st, IF rec.topen THEN "C15:RetriedBeforeBackoffTime:PassOpenAtTerm" ELSE "C15:RetriedBeforeBackoffTime")
                     ELSE R([st EXCEPT !.fl = st.fl \cup {f}, !.msgs[n].recs[i].fl = TRUE, !.msgs[n].recs[i].att = rec.att + 1,
@@ -199,10 +209,14 @@ Step(st0, e, strict) ==
                                                  /\ ~\E f \in st.fl : f[3] = w[1] /\ st.msgs[f[3]].recs[f[4]].c = st.msgs[w[1]].recs[w[2]].c}
                   \* a channel whose concurrency is 0 ("on hold") with mail waiting keeps one job slot for good; if the other
                   \* channel has no more than one slot it is starved (see known_findings.txt)
-                  held == \E c \in {0, 1} : Limit(st, c) = 0 /\ Limit(st, 1 - c) <= 1 /\
+                  busyjobs == Cardinality({<<f[3], f[1]>> : f \in st.fl})        \* jobs kept open by deliveries in flight
+                  held == \E c \in {0, 1} : Limit(st, c) = 0 /\ Limit(st, 0) + Limit(st, 1) - 1 - busyjobs <= 0 /\
                              \E k \in vis : st.msgs[k].prepped /\ \E i \in 1..Len(st.msgs[k].recs) : st.msgs[k].recs[i].c = c /\ ~st.msgs[k].recs[i].mark
                   tag == IF held THEN ":JobSlotHeldByChannelOnHold" ELSE ""
+                  expiredopen == {w \in UNION {{<<k2, i2>> : i2 \in 1..Len(st.msgs[k2].recs)} : k2 \in vis} :
+                                    st.msgs[w[1]].recs[w[2]].last = "E" /\ ~st.msgs[w[1]].recs[w[2]].mark /\ st.msgs[w[1]].recs[w[2]].free}
               IN IF strict /\ e.extra = 1 /\ unprepped # {} THEN R(st, "C16:AcceptedMessageNotNoticedWithoutRescan")
+                 ELSE IF strict /\ ~st.faulted /\ expiredopen # {} THEN R(st, "C15:ExpiredTemporaryFailureNotTreatedAsPermanent")
                  ELSE IF strict /\ overdue # {} THEN R(st, "C15:DueRecipientNotAttempted" \o tag \o "|" \o ToString(Pick(overdue)) \o ToString(due(Pick(overdue))))
                  ELSE IF e.tmo = 0 THEN R(st, "C16:ZeroTimeoutWhileIdle")
                  ELSE IF strict /\ overslept # {} THEN R(st, "C16:SleepsPastEarliestDueEvent" \o tag \o "|" \o ToString(Pick(overslept)) \o ToString(due(Pick(overslept))))
